@@ -24,6 +24,9 @@ def run(ctx):
     thorough = ctx.tier == "thorough"
     ctx.tlc("Wrapper", "Wrapper.cfg", workers=8)
     ctx.tlc("Wrapper", "Wrapper_nocheck.cfg", workers=8, expect_violation=True)
+    # beyond the listed property, unbound: the on-chain contract's state machine; its 128-bit truncation is lossless only under BelowWord
+    ctx.tlc("ContractState", "ContractState.cfg", workers=4)
+    ctx.tlc("ContractState", "ContractState_unbounded.cfg", workers=4, expect_violation=True)
     for init, inv, want in (("InitLimbs32", "InvLimbs32", "NoError"), ("InitLimbsFree", "InvLimbsFree", "Error")):
         a = ctx.apalache_check(os.path.join(common.SPEC, "apalache", "Packing.tla"), init, inv, name="pack-" + init)
         ctx.apalache[-1]["expected"] = want
